@@ -179,7 +179,16 @@ def mask_r(w, r):
 
 
 def words_eq(a, b):
-    return all(tuple(x) == tuple(y) for x, y in zip(a, b)) and len(a) == len(b)
+    """a = what the code computes, b = the reference.  A TOP bit in `a` means the domain cannot
+    represent the code's value: that is 'unknown', never 'refuted' -> ANALYSIS-BROKEN."""
+    eq = all(tuple(x) == tuple(y) for x, y in zip(a, b)) and len(a) == len(b)
+    if not eq:
+        for i, x in enumerate(a):
+            for j, bit in enumerate(x):
+                if bit is gf2.TOP:
+                    raise Broken("mode analysis: bit %d of word %d computed by the code is not representable in the GF(2) term domain "
+                                 "(data-dependent shift, arithmetic on data, unknown load, ...): cannot compare with the reference" % (j, i))
+    return eq
 
 
 def first_diff(a, b):
